@@ -150,16 +150,18 @@ DNS_ORACLE = "simple_dns::Packet::parse -> 'payload parses?' oracle (the DNS par
 _P = "iroh_dns__pkarr"
 PROPS["C32"] = {
     "functions": ["iroh_dns::pkarr::SignedPacket::{from_bytes,from_relay_payload,from_bytes_unchecked,from_parts_unchecked,public_key,signature,timestamp,encoded_packet,as_bytes,to_relay_payload}",
-                  "iroh_dns::pkarr::signable (real format!)"],
-    "bounds": "packets of 104+P bytes, P in {0,2,4} (every byte symbolic), timestamps < 1000 where the BEP44 text is compared digit by digit; size limits at 0,1,96,103 and 1105 bytes",
-    "out": "real Ed25519 / curve arithmetic and the real DNS parser (oracles), txt_records / all_txt_records / Display (simple-dns name handling), from_txt_strings (needs a SecretKey), payloads > 4 bytes, timestamps >= 1000",
-    "stubs": [KEY_ORACLE, KEY_ALLVALID, SIG_ORACLE, DNS_ORACLE, BT],
+                  "(iroh_dns::pkarr::signable is stubbed)"],
+    "bounds": "packets of 104+P bytes, P in {0,2,4}, every byte (key, signature, timestamp, payload) symbolic; size limits at 0,1,96,103 and 1105 bytes",
+    "out": "the BEP44 prefix text `3:seqi<ts>e1:v<len>:` (format! is stubbed to a placeholder, so that the *timestamp* is bound into the signed message is NOT decided - only that this packet's payload, key and signature are what gets verified), real Ed25519 / curve arithmetic and the real DNS parser (oracles), txt_records / all_txt_records / Display (simple-dns name handling), from_txt_strings (needs a SecretKey), payloads > 4 bytes, timestamps >= 1000",
+    "stubs": [KEY_ORACLE, KEY_ALLVALID, SIG_ORACLE, DNS_ORACLE, BT, "iroh_dns::pkarr::signable -> injective model <8-byte BE timestamp>||payload (its format! is out of CBMC's reach)"],
     "assumptions": ["signature verification and DNS parsing are uninterpreted oracles: decided is *what* iroh asks them (which key, which message bytes, which signature) and that acceptance requires all of them"],
     "harnesses": [
-        H(_P, "c32_signable_is_bep44", "signable(ts, v) == 3:seqi<ts>e1:v<len>:<v>", "ts < 1000, 3-byte payload", timeout=600),
-        H(_P, "c32_from_bytes_authentic_p4", "from_bytes Ok iff key valid & signature by embedded key over signable(ts,payload) verifies & payload parses; bytes preserved; accessors agree", "108-byte packets, ts < 1000", timeout=900, stub_env=True, stubs=["decompress", "verify", "Packet::parse"]),
-        H(_P, "c32_from_bytes_authentic_p0", "same with empty payload", "104-byte packets, ts < 1000", timeout=900, stub_env=True, stubs=["decompress", "verify", "Packet::parse"]),
-        H(_P, "c32_from_relay_payload_uses_given_key", "from_relay_payload(K,x) verifies under K and embeds K", "74-byte payloads", timeout=900, stub_env=True, stubs=["verify", "Packet::parse"]),
+        H(_P, "c32_from_bytes_authentic_p4_parses", "from_bytes Ok iff key valid & signature by the embedded key over (prefix||payload) verifies & payload parses; bytes preserved; accessors agree (payload oracle says yes)", "108-byte packets, all bytes symbolic", timeout=900, stub_env=True, stubs=["decompress", "verify", "Packet::parse", "format"]),
+        H(_P, "c32_from_bytes_authentic_p4_parse_fails", "from_bytes Ok iff key valid & signature by the embedded key over (prefix||payload) verifies & payload parses; bytes preserved; accessors agree (payload oracle says no => always rejected)", "108-byte packets, all bytes symbolic", timeout=900, stub_env=True, stubs=["decompress", "verify", "Packet::parse", "format"]),
+        H(_P, "c32_from_bytes_authentic_p0_parses", "same with empty payload (payload oracle says yes)", "104-byte packets", tier="thorough", timeout=1800, stub_env=True, stubs=["decompress", "verify", "Packet::parse", "format"]),
+        H(_P, "c32_from_bytes_authentic_p0_parse_fails", "same with empty payload (payload oracle says no => always rejected)", "104-byte packets", tier="thorough", timeout=1800, stub_env=True, stubs=["decompress", "verify", "Packet::parse", "format"]),
+        H(_P, "c32_from_relay_payload_uses_given_key_parses", "from_relay_payload(K,x) verifies under K and embeds K; to_relay_payload inverts (payload oracle says yes)", "74-byte payloads", timeout=900, stub_env=True, stubs=["decompress", "verify", "Packet::parse", "format"]),
+        H(_P, "c32_from_relay_payload_uses_given_key_parse_fails", "from_relay_payload(K,x) verifies under K and embeds K; to_relay_payload inverts (payload oracle says no => always rejected)", "74-byte payloads", timeout=900, stub_env=True, stubs=["decompress", "verify", "Packet::parse", "format"]),
         H(_P, "c32_size_limits", "too short / too long inputs rejected before any oracle is consulted", "lengths 0,1,96,103,1105"),
         H(_P, "c32_unchecked_is_safe_to_inspect", "values from from_bytes_unchecked / from_parts_unchecked can be inspected without panic", "106-byte inputs, all bytes symbolic", timeout=600, stub_env=True, stubs=["decompress", "Packet::parse"]),
         W(_P, "c32_witness", timeout=600),
@@ -253,5 +255,35 @@ PROPS["C14"] = {
         H(_PT, "c14_timeout_is_clamped_triple_rtt", "ping_timeout() == clamp(3*rtt, 500 ms, max), max when unmeasured", "max 1..=120 s, rtt 0..=200 s in ms", timeout=600),
         H(_PT, "c14_stale_pong_ignored", "a pong for an older ping or with forged data changes nothing", "2 pings, 3 pongs", stub_env=True, stubs=["rand::random", "Instant::now"]),
         W(_PT, "c14_witness"),
+    ],
+}
+
+_M = "iroh__mapped_addrs"
+PROPS["C18"] = {
+    "functions": ["iroh::socket::mapped_addrs::MultipathMappedAddr::from(SocketAddr)", "EndpointIdMappedAddr/RelayMappedAddr/CustomMappedAddr::try_from(Ipv6Addr)",
+                  "CustomMappedAddr::try_from(IpAddr)", "MappedAddr::private_socket_addr (3 impls)"],
+    "bounds": "ALL socket addresses: 128-bit IPv6 address, port, flow info, scope id, and all IPv4 addresses/ports - fully symbolic",
+    "out": "AddrMap::{get,lookup} (FxHashMap with symbolic or symbolic-index keys did not finish within 12 min; the real generate() calls rand::rng(), a thread-local with destructor => kani-compiler ICE): "
+           "stability/uniqueness of the key<->address bijection under concurrent lookups is NOT decided; RemoteMap::to_transport_addr",
+    "stubs": [BT],
+    "assumptions": [],
+    "harnesses": [
+        H(_M, "c18_classification_all_addresses", "an address is classified Mixed/Relay/Custom iff its first 8 bytes are fd15:070a:510b:000{0,1,3}; anything else is Ip and passed through unchanged; synthetic kinds keep their bits", "all socket addresses"),
+        H(_M, "c18_kinds_disjoint_and_roundtrip", "the three synthetic ranges are pairwise disjoint; private_socket_addr() of a synthetic address classifies back to the same kind and value", "all IPv6 addresses"),
+        W(_M, "c18_witness"),
+    ],
+}
+_I = "iroh__ip"
+PROPS["C19"] = {
+    "functions": ["iroh::socket::transports::ip::Config::{is_valid_send_addr,is_valid_default_addr,is_ipv4,is_ipv6,prefix_len,is_default}", "ipnet::{Ipv4Net,Ipv6Net}::{new,contains,addr,prefix_len} (real)"],
+    "bounds": "every bound-socket configuration (any address, prefix 0..=32/128, scope id, flags), every destination (v4/v6, scope), optional source of either family - fully symbolic",
+    "out": "the selection `find` over the prefix-sorted sender list and the never-fatal wrapper (IpSender / Socket hold real sockets and the endpoint), the sort by prefix length in bind, "
+           "dispatch of synthetic relay/custom addresses (needs RemoteMap and live transports); classification of synthetic addresses is decided under C18",
+    "stubs": [],
+    "assumptions": [],
+    "harnesses": [
+        H(_I, "c19_valid_send_addr_matches_rule", "is_valid_send_addr == (source given: same family and bound address unspecified or equal; none: subnet contains destination, or link-local v6 destination on the socket's scope)", "all configs/destinations/sources", timeout=600),
+        H(_I, "c19_valid_default_addr_matches_rule", "is_valid_default_addr == default-flagged socket of the family of the source (else of the destination)", "all configs/destinations/sources"),
+        W(_I, "c19_witness"),
     ],
 }
